@@ -26,19 +26,61 @@ ALIASES = {
 }
 
 
+def standard_registry(P, J=None):
+    """the package's registry of potential forms as a model sees it: Potential_Form_Registry(cfg, register_standard=True)
+    on a configuration without custom or table forms, through the public constructor -> (interpreter, registry object,
+    [registered labels])"""
+    from . import cfgmodel as M_
+    from .props.c06 import _form_tuple_hook
+    from .props.c20 import Cfg
+    from .symeval_ops import PyObjV
+    reg = P.cls("atsim.potentials.config._potential_form_registry", "Potential_Form_Registry")
+    if J is None:
+        J = make_interp(P)
+    M_.install_cexprtk(J)
+    J.hooks["atsim.potentials.config._common:make_potential_form_tuple_from_function"] = _form_tuple_hook(P)
+    robj = J.instantiate(reg, [PyObjV(Cfg(ListV([], "list"), ListV([], "list"), missing=True))], {"register_standard": TRUE}, None)
+    labels = J.as_iterable(J.getattr(robj, "registered"))
+    if not isinstance(labels, ListV) or not all(isinstance(x, Const) for x in labels.items):
+        raise AnalysisError("Potential_Form_Registry.registered is not a concrete list of labels")
+    return J, robj, [x.v for x in labels.items]
+
+
+def real_potential(P, defn):
+    """the callable the package builds for the text of a [Pair] definition: the text is parsed by the package's own
+    ConfigParser (configparser / pyparsing models), built by Potential_Form_Builder with the package's standard
+    Potential_Form_Registry and Modifier_Registry -> (interpreter, callable) or (None, reason)"""
+    from .props.c14 import parse
+    out = parse(P, "[Pair]\nA-B : %s\n" % defn)
+    if out[0] != "ok":
+        return None, "the definition is refused: %r" % (out[1],)
+    J, cp = out[3], out[4]
+    try:
+        rows = J.as_iterable(J.getattr(cp, "pair"))
+        pfi = J.getattr(rows.items[0], "potential_form_instance")
+        _, pfr, _labels = standard_registry(P, J)
+        mreg = J.instantiate(P.cls("atsim.potentials.config._modifier_registry", "Modifier_Registry"), [], {}, None)
+        pb = J.instantiate(P.cls("atsim.potentials.config._potential_form_builder", "Potential_Form_Builder"), [pfr, mreg], {}, None)
+        pot = W.run_method(J, pb, "create_potential_function", [pfi])
+    except RaiseSignal as e:
+        return None, "raises %r" % (e.exc,)
+    return J, pot
+
+
 def all_forms(I, P):
     """the reference forms (those with a formula in sa/specs/forms.py) followed by any further forms the package registers
-    itself (Potential_Form_Registry._register_standard -> 'as.NAME'); the latter get every rule that needs no reference
-    formula"""
-    reg = P.cls("atsim.potentials.config._potential_form_registry", "Potential_Form_Registry")
-    J = make_interp(P)
-    from .props.c06 import _form_tuple_hook
-    J.hooks["atsim.potentials.config._common:make_potential_form_tuple_from_function"] = _form_tuple_hook(P)
-    table = W.run_method(J, InstV(reg), "_register_standard", [])
-    if not isinstance(table, DictV):
-        raise AnalysisError("_register_standard did not return a dict")
-    names = sorted(k.v[3:] for k, _ in table.items.values() if isinstance(k, Const) and k.v.startswith("as."))
-    extra = [n for n in names if n not in FORMS]
+    itself from potentialfunctions ('as.NAME' entries of the standard registry that wrap a potentialfunctions callable);
+    the latter get every rule that needs no reference formula"""
+    J, robj, labels = standard_registry(P)
+    pf = P.cls("atsim.potentials.config._potential_form", "Potential_Form")
+    names = []
+    for lab in labels:
+        if not lab.startswith("as."):
+            continue
+        ent = J.getitem(robj, Const(lab))
+        if isinstance(ent, InstV) and ent.ci is pf:       # Existing_Potential_Form entries come from potentialforms (buck4 ...)
+            names.append(lab[3:])
+    extra = [n for n in sorted(names) if n not in FORMS]
     return list(FORMS), extra
 
 
